@@ -18,8 +18,12 @@ import (
 
 // folder content: "-" absent, "e" a folder without snapshot, "<n>" a folder whose newest
 // snapshot holds the pinset {CidN(n)} (n >= 1).
+// how the configuration spells the data folder (relative to the scratch base directory)
+var folderNames = []string{"raft", "raft/", "my raft.d", "r\u00e4ft-\u6570\u636e %d", "raft.old.0", "x/../raft", "raft//"}
+
 type rotCase struct {
 	keep int
+	name int // index into folderNames (encoded in the case line as 100*name + m)
 	m    int
 	data string
 	olds []string
@@ -31,7 +35,7 @@ func (c rotCase) input() string {
 	if len(c.ops) > 0 {
 		ops = strings.Join(c.ops, ",")
 	}
-	return fmt.Sprintf("C14 rot %d %d %s %s %s", c.keep, c.m, c.data, strings.Join(c.olds, ","), ops)
+	return fmt.Sprintf("C14 rot %d %d %s %s %s", c.keep, 100*c.name+c.m, c.data, strings.Join(c.olds, ","), ops)
 }
 
 func validFolderTok(s string) bool {
@@ -39,7 +43,7 @@ func validFolderTok(s string) bool {
 		return true
 	}
 	n, err := strconv.Atoi(s)
-	return err == nil && n >= 1 && n < nCids
+	return err == nil && n >= 0 && n < nCids // 0: a snapshot of the empty pinset
 }
 
 func parseRotCase(f []string) (rotCase, bool) {
@@ -50,7 +54,11 @@ func parseRotCase(f []string) (rotCase, bool) {
 	var e1, e2 error
 	c.keep, e1 = strconv.Atoi(f[0])
 	c.m, e2 = strconv.Atoi(f[1])
-	if e1 != nil || e2 != nil || c.keep < 0 || c.m < 1 || c.m > 40 {
+	if e1 != nil || e2 != nil || c.keep < 0 || c.m < 0 {
+		return c, false
+	}
+	c.name, c.m = c.m/100, c.m%100
+	if c.m < 1 || c.m > 40 || c.name >= len(folderNames) {
 		return c, false
 	}
 	c.data = f[2]
@@ -71,7 +79,7 @@ func parseRotCase(f []string) (rotCase, bool) {
 		case o == "c" || o == "m":
 		case len(o) > 1 && (o[0] == 's' || o[0] == 'k'):
 			n, err := strconv.Atoi(o[1:])
-			if err != nil || n < 0 || (o[0] == 's' && (n < 1 || n >= nCids)) {
+			if err != nil || n < 0 || (o[0] == 's' && n >= nCids) {
 				return c, false
 			}
 		default:
@@ -83,7 +91,9 @@ func parseRotCase(f []string) (rotCase, bool) {
 
 func tagState(n int) *dsstate.State {
 	st, _ := dsstate.New(inmem.New(), "/tag", nil)
-	st.Add(context.Background(), api.PinCid(cidTab[n]))
+	if n > 0 { // tag 0 is the empty pinset
+		st.Add(context.Background(), api.PinCid(cidTab[n]))
+	}
 	return st
 }
 
@@ -123,6 +133,9 @@ func observeFolder(path string) string {
 		return "?"
 	}
 	pins, err := st.List(context.Background())
+	if err == nil && len(pins) == 0 {
+		return "0"
+	}
 	if err != nil || len(pins) != 1 {
 		return "?"
 	}
@@ -133,13 +146,13 @@ func observeFolder(path string) string {
 	return strconv.Itoa(i)
 }
 
-func observeDirs(base string, m int) string {
-	data := filepath.Join(base, "raft")
+func observeDirs(base, folder string, m int) string {
+	data := filepath.Join(base, folder)
 	olds := make([]string, m)
-	known := map[string]bool{"raft": true}
+	known := map[string]bool{folder: true, "x": true}
 	for i := 0; i < m; i++ {
 		olds[i] = observeFolder(fmt.Sprintf("%s.old.%d", data, i))
-		known[fmt.Sprintf("raft.old.%d", i)] = true
+		known[fmt.Sprintf("%s.old.%d", folder, i)] = true
 	}
 	d := observeFolder(data)
 	extra := 0
@@ -158,7 +171,11 @@ func observeDirs(base string, m int) string {
 func runRot(c rotCase) string {
 	base := scratch("rot")
 	defer os.RemoveAll(base)
-	data := filepath.Join(base, "raft")
+	os.MkdirAll(filepath.Join(base, "x"), 0700)
+	// the configured spelling (not cleaned) and the folder it names
+	spelled := base + "/" + folderNames[c.name]
+	folder := filepath.Base(filepath.Clean(spelled))
+	data := filepath.Join(base, folder)
 	if err := makeFolder(data, c.data); err != nil {
 		return "# inconclusive setup " + c.input()
 	}
@@ -167,7 +184,7 @@ func runRot(c rotCase) string {
 			return "# inconclusive setup " + c.input()
 		}
 	}
-	cfg := raftCfg(data, c.keep)
+	cfg := raftCfg(spelled, c.keep)
 	var out []string
 	for _, op := range c.ops {
 		panicked := false
@@ -196,7 +213,7 @@ func runRot(c rotCase) string {
 			out = append(out, "panic")
 			break
 		}
-		out = append(out, observeDirs(base, c.m))
+		out = append(out, observeDirs(base, folder, c.m))
 	}
 	return strings.Join(out, " ")
 }
@@ -204,6 +221,9 @@ func runRot(c rotCase) string {
 func genRotCase(r *common.Rng, k, total int) rotCase {
 	var c rotCase
 	c.keep = []int{1, 1, 2, 2, 3, 3, 4, 5, 6}[r.Intn(9)]
+	if r.Chance(1, 3) {
+		c.name = r.Intn(len(folderNames))
+	}
 	nops := r.Range(1, 8)
 	if k > total/2 {
 		nops = r.Range(3, 14)
@@ -231,8 +251,10 @@ func genRotCase(r *common.Rng, k, total int) rotCase {
 		switch x := r.Intn(20); {
 		case x < 8:
 			c.ops = append(c.ops, "c")
-		case x < 16:
+		case x < 15:
 			c.ops = append(c.ops, "s"+next())
+		case x < 16:
+			c.ops = append(c.ops, "s0") // a snapshot of the empty pinset
 		case x < 18:
 			c.ops = append(c.ops, "m")
 		default:
